@@ -611,6 +611,11 @@ impl<P: FpConfig<N>, const N: usize> CanonicalDeserializeWithFlags for Fp<P, N> 
         masked_bytes.read_exact_up_to(reader, output_byte_size)?;
         let flags = F::from_u8_remove_flags(&mut masked_bytes[output_byte_size - 1])
             .ok_or(SerializationError::UnexpectedFlags)?;
+        // When the flags do not fit next to the integer they live in an extra byte that carries
+        // nothing else: reject stray bits there, otherwise the encoding is not unique.
+        if output_byte_size == 8 * N + 1 && masked_bytes[8 * N] != 0 {
+            return Err(SerializationError::InvalidData);
+        }
 
         let self_integer = masked_bytes.to_bigint();
         Self::from_bigint(self_integer)
